@@ -189,6 +189,10 @@ pub struct Run {
     pub signal: Option<i32>,
     pub stdout: String,
     pub stderr: String,
+    /// the watchdog fired (the child was killed by the harness: neither an exit code nor a signal of its own)
+    pub timed_out: bool,
+    /// ... and at that moment it was issuing system calls without moving a byte
+    pub spinning: bool,
 }
 pub fn valgrind() -> bool {
     std::env::var("VH_VALGRIND").map(|v| v == "1").unwrap_or(false)
@@ -205,8 +209,19 @@ pub fn copia_command() -> Command {
 }
 pub fn run_copia(args: &[&str], cwd: &Path) -> Run {
     use std::os::unix::process::ExitStatusExt;
-    let o = copia_command().args(args).current_dir(cwd).env("RUST_LOG", "off").output().expect("spawn copia");
-    Run { code: o.status.code(), signal: o.status.signal(), stdout: String::from_utf8_lossy(&o.stdout).into(), stderr: String::from_utf8_lossy(&o.stderr).into() }
+    use std::process::Stdio;
+    // output goes to files of its own (no pipe to drain while the watchdog polls)
+    static N: std::sync::atomic::AtomicU64 = std::sync::atomic::AtomicU64::new(0);
+    let n = N.fetch_add(1, std::sync::atomic::Ordering::Relaxed);
+    let (po, pe) = (cwd.join(format!(".vh-stdout-{n}")), cwd.join(format!(".vh-stderr-{n}")));
+    let (fo, fe) = (std::fs::File::create(&po).expect("scratch file"), std::fs::File::create(&pe).expect("scratch file"));
+    let mut child = copia_command().args(args).current_dir(cwd).env("RUST_LOG", "off").stdin(Stdio::null()).stdout(Stdio::from(fo)).stderr(Stdio::from(fe)).spawn().expect("spawn copia");
+    let (status, timed_out, spinning) = crate::util::wait_watchdog(&mut child, crate::util::watchdog_secs(if valgrind() { 900 } else { 180 }));
+    if spinning {
+        crate::util::HANG_SEEN.store(true, std::sync::atomic::Ordering::Relaxed);
+    }
+    let rd = |p: &Path| -> String { let s = std::fs::read(p).map(|b| String::from_utf8_lossy(&b[..b.len().min(1 << 20)]).into_owned()).unwrap_or_default(); let _ = std::fs::remove_file(p); s };
+    Run { code: status.and_then(|s| s.code()), signal: status.and_then(|s| s.signal()), stdout: rd(&po), stderr: rd(&pe), timed_out, spinning }
 }
 
 /// ONE engine object used for a series of delta calls against different signatures (v1, then v2 = v1 with a block
@@ -266,7 +281,7 @@ pub fn run_copia_killed(args: &[&str], cwd: &Path, k: u64) -> Option<Run> {
         return None;
     }
     let o = Command::new(copia_bin()).args(args).current_dir(cwd).env("RUST_LOG", "off").env("LD_PRELOAD", shim).env("FSMON_MATCH", "copia").env("FSMON_KILL_AT", k.to_string()).env("FSMON_KILL_CLASS", "mutating").output().ok()?;
-    Some(Run { code: o.status.code(), signal: o.status.signal(), stdout: String::from_utf8_lossy(&o.stdout).into(), stderr: String::from_utf8_lossy(&o.stderr).into() })
+    Some(Run { code: o.status.code(), signal: o.status.signal(), stdout: String::from_utf8_lossy(&o.stdout).into(), stderr: String::from_utf8_lossy(&o.stderr).into(), timed_out: false, spinning: false })
 }
 
 fn cli_one(seed: u64, idx: u64, work: &Path, rep: &mut Report) {
@@ -306,7 +321,13 @@ fn cli_one(seed: u64, idx: u64, work: &Path, rep: &mut Report) {
     std::fs::write(dir.join("source"), &c.source).unwrap();
     let bss = bs.to_string();
     let fail = |rep: &mut Report, what: &str, r: &Run, ctx: &serde_json::Value| {
-        let what = if r.code == Some(97) && valgrind() { "valgrind-memcheck-error" } else { what };
+        if r.timed_out && !r.spinning {
+            rep.inconclusive += 1;
+            rep.count("cli_watchdog_expired_without_spin_evidence", 1);
+            return;
+        }
+        let hang = format!("{what}-hang-spinning-without-progress");
+        let what = if r.spinning { hang.as_str() } else if r.code == Some(97) && valgrind() { "valgrind-memcheck-error" } else { what };
         rep.violation(&format!("C01|cli|{what}"), json!({"ctx": ctx, "code": r.code, "signal": r.signal, "stderr": r.stderr.chars().take(300).collect::<String>()}));
     };
     // chain
